@@ -5,13 +5,18 @@
    (proofs/C11_spec.v: it reflects the Prop-level [Spec], and the model's own run satisfies [Spec] for
    every input), [model_b] compares the observation with the model's run. *)
 From Coq Require Import Arith NArith List Ascii String Bool.
-From AV Require Import lib.Str model.C11_model.
+From AV Require Import lib.Str model.KC_discover model.C11_model.
 Import ListNotations.
 Local Open Scope string_scope.
 Local Open Scope nat_scope.
 
+(* the C11 view of a list item: the uuid is only a map key *)
+Definition k_of (s : dsvc) : ksvc :=
+  {| k_host := d_host s; k_port := d_port s; k_ssl := d_ssl s; k_type := d_type s; k_ro := d_ro s |}.
+
 Record cin := {
-  i_svcs : list ksvc;            (* keep_services list as given to LoadKeepServicesFromJSON *)
+  i_lists : list (list dsvc);    (* the keep_services lists the client was given, one after the other
+                                    (LoadKeepServicesFromJSON each time); the last one is in force for the Put *)
   i_order : list nat;            (* NewRootSorter(all roots, hash) as indices into i_svcs *)
   i_want : nat;                  (* Want_replicas *)
   i_retries : nat;               (* Retries *)
@@ -23,6 +28,9 @@ Record cin := {
   i_table : list (list outcome); (* per service index, per attempt: the scripted answer (body = suffix) *)
   i_picks : list nat             (* completion schedule *)
 }.
+
+(* the list in force when the Put is made (model/KC_discover.v: every load replaces the previous roots) *)
+Definition i_svcs (i : cin) : list ksvc := map k_of (current_list (i_lists i)).
 
 (* the same with the digest, the oracle and the schedule as arbitrary functions: the theorems are
    stated for these; a case file supplies finite tables *)
@@ -76,7 +84,11 @@ Record obs := {
   ob_res : result;
   ob_reqs : list oreq;      (* every request received, sorted by (service, arrival) *)
   ob_returned : bool;       (* Put returned before the watchdog *)
-  ob_sync : bool            (* the predicted set of outstanding requests was reached at every step *)
+  ob_sync : bool;           (* the predicted set of outstanding requests was reached at every step *)
+  (* kc.LocalRoots(), kc.WritableLocalRoots(), kc.GatewayRoots() read back after the last list was loaded *)
+  ob_local : smap;
+  ob_writable : smap;
+  ob_gateway : smap
 }.
 
 Record case := { c_in : cin; c_obs : obs }.
@@ -188,7 +200,12 @@ Definition gspec_b (i : gin) (o : obs) : bool :=
                 match ob_reqs o with [] => true | _ => false end
   end.
 
-Definition spec_b (c : case) : bool := gspec_b (gin_of (c_in c)) (c_obs c).
+(* discovery: the maps the client uses after its last list satisfy the roots specification of that list
+   (writable = exactly the listed services that are not read-only, ...), whatever lists came before *)
+Definition disc_spec_b (i : cin) (o : obs) : bool :=
+  roots_spec_b (current_list (i_lists i)) (ob_local o) (ob_writable o) (ob_gateway o).
+
+Definition spec_b (c : case) : bool := gspec_b (gin_of (c_in c)) (c_obs c) && disc_spec_b (c_in c) (c_obs c).
 
 (* ---- model = observation ---- *)
 Definition model_b (c : case) : bool :=
@@ -199,7 +216,9 @@ Definition model_b (c : case) : bool :=
   match ob_extra o with [] => true | _ => false end &&
   result_eqb (ob_res o) (r_res r) &&
   list_eqb Nat.eqb (sort_nat (in_flight o)) (sort_nat (r_abandoned r)) &&
-  list_eqb Nat.eqb (sort_nat (map q_svc (ob_reqs o))) (sort_nat (flat_map st_started (r_steps r))).
+  list_eqb Nat.eqb (sort_nat (map q_svc (ob_reqs o))) (sort_nat (flat_map st_started (r_steps r))) &&
+  (let m := k_roots (load_all kstate0 (i_lists i)) in
+   smap_eqb (ob_local o) (r_local m) && smap_eqb (ob_writable o) (r_writable m) && smap_eqb (ob_gateway o) (r_gateway m)).
 
 Definition check_case (c : case) : N :=
   ((if model_b c then 0 else 1) + (if spec_b c then 0 else 2))%N.
@@ -213,8 +232,6 @@ Fixpoint failing_from (i : N) (cs : list case) : list (N * N) :=
 Definition failing (cs : list case) : list (N * N) := failing_from 0%N cs.
 
 (* constructors with short names for the generated files *)
-Definition K (h : string) (p : N) (ssl : bool) (t : string) (ro : bool) : ksvc :=
-  {| k_host := h; k_port := p; k_ssl := ssl; k_type := t; k_ro := ro |}.
 Definition St (r : nat) (started : list nat) (d : nat) (o : outcome) : step :=
   {| st_round := r; st_started := started; st_done := d; st_out := o |}.
 Definition Q (s : nat) (p d : string) (n : N) (b : string) : oreq :=
